@@ -78,9 +78,13 @@ def run(chk):
         n = rng.randint(1, 4)
         iv = rng.choice([0, 1, 2])
         evs = []
-        for _ in range(rng.randint(0, 30)):
+        for _k in range(rng.randint(0, 30)):
             r = rng.random()
             evs.append('T%d' % rng.randrange(n) if r < .55 else 't' if r < .8 else 'F%d' % rng.randrange(n))
+        if _ % 40 == 0:
+            # a worker id completes more tasks than 16 bits hold within one call
+            evs.insert(rng.randint(0, len(evs)), 'B%dx%d' % (rng.randrange(n), rng.choice([65535, 65536, 70000])))
+            evs.append('F%d' % int(evs[[e[0] for e in evs].index('B')][1:].split('x')[0]))
         lines.append('progress n=%d total=- interval=%d ev=%s' % (n, iv, ','.join(evs) or '-'))
         impl.append(small.progress_run(n, iv, evs))
     out = drv.run(lines)
